@@ -256,6 +256,10 @@ def wrappers(obj):
             wrappers = obj._sigtools__wrappers
         except AttributeError:
             return
-        for wrapper in wrappers:
-            yield wrapper
-        obj = obj.__wrapped__
+        wrapped = obj.__wrapped__
+        # functools.wraps copies the attribute, along with the rest of
+        # __dict__, onto wrappers that have nothing to do with this module
+        if getattr(wrapped, '_sigtools__wrappers', None) is not wrappers:
+            for wrapper in wrappers:
+                yield wrapper
+        obj = wrapped
